@@ -377,8 +377,7 @@ fn step<S: MdkStorageProvider>(w: &mut World<S>, l: &str, truth: &mut Truth, run
     if let Some(b) = &before {
         let ev: u64 = t[3].parse().unwrap();
         if truth.took_effect.contains(&(m, ev)) && fp != "skip" && strip(&fp) != *b {
-            let is_prop = w.events.get(&ev).map(|i| i.kind == "prop").unwrap_or(false);
-            let cls = if is_prop { "late-proposal-treated-as-mip03-candidate" } else if pending_before == Some(ev) { "rollback-resurrects-superseded-pending-commit" } else if truth.own_echo_other_pending { "own-echo-merges-a-different-pending-commit" } else { "" };
+            let cls = if pending_before == Some(ev) { "rollback-resurrects-superseded-pending-commit" } else if truth.own_echo_other_pending { "own-echo-merges-a-different-pending-commit" } else { "" };
             run.oracle_fail("C07", cls, format!("[{backend}] re-delivering event {ev}, which had already taken effect at member {m}, changed its state: {b} -> {}", strip(&fp)), seq.join(" || ") + " || " + &line);
         }
         if ["res=App", "res=Commit", "res=PendingProposal", "res=AutoCommit"].iter().any(|k| fp.starts_with(k)) { truth.took_effect.insert((m, ev)); }
@@ -451,7 +450,7 @@ fn oracles<S: MdkStorageProvider>(run: &mut Run, w: &mut World<S>, seq: &mut Vec
     let on_chain = |st: u64| chain.contains(&st);
     let fork_merge = truth.merges.iter().any(|(_, ev)| { let p = w.events.get(ev).map(|i| i.state); w.events.iter().any(|(e2, i2)| e2 != ev && i2.kind == "commit" && Some(i2.state) == p && (live.contains(e2) || *e2 >= 1000)) });
     let ahead_on_chain = truth.ahead.iter().any(|(_, ev)| w.events.get(ev).map(|i| on_chain(i.state)).unwrap_or(false));
-    let class = if truth.late_competitor_after_restart { "better-commit-not-adopted-after-restart" } else if truth.own_echo_other_pending { "own-echo-merges-a-different-pending-commit" } else if truth.sweeps { "operation-commits-others-pending-proposals" } else if fork_merge { "merge-pending-commit-takes-no-snapshot" } else if truth.rollback_then_refused { "rolled-back-then-refused" } else if truth.stale_proposal { "late-proposal-treated-as-mip03-candidate" } else if ahead_on_chain { "event-offered-ahead-of-its-predecessor-never-retried" } else { "" };
+    let class = if truth.late_competitor_after_restart { "better-commit-not-adopted-after-restart" } else if truth.own_echo_other_pending { "own-echo-merges-a-different-pending-commit" } else if truth.sweeps { "operation-commits-others-pending-proposals" } else if fork_merge { "merge-pending-commit-takes-no-snapshot" } else if truth.rollback_then_refused { "rolled-back-then-refused" } else if ahead_on_chain { "event-offered-ahead-of-its-predecessor-never-retried" } else { "" };
     let in_scope = !truth.beyond_retention;
     run.count(if !in_scope { "history:fork-deeper-than-retention" } else if class.is_empty() { "history:in-proved-regime" } else { "history:known-class" });
     // C01: all remaining (active) members hold the state MIP-03 selects
